@@ -221,6 +221,41 @@ theorem C12_die_invalid_itemname_in_frame (o : Opts) (cs : List Chunk) (preB : L
   C12_die_items_in_frame preE fc pre H CIF_INVALID_ITEMNAME 1 1 (fun _ => True) hpreE hcode hnew hpre (by decide) (by simp) (by simp)
     trivial (fun _ _ _ => ⟨_, _, _, rfl, rfl⟩) (fun _ => die_invalid_itemname o false n [] _ hn0 hinv)
 
+/-! ### any depth of nesting -/
+
+theorem dieJ_le : ∀ (ctx : List DLevel) (T : List TokSpec) (j : Nat), j ≤ T.length → dieJ ctx j ≤ (dieToks ctx T).length
+  | [], T, j, h => by simpa [dieJ, dieToks] using h
+  | L :: r, T, j, h => by
+    have := dieJ_le r T j h
+    simp only [dieJ, dieToks, List.length_append, List.length_cons]
+    omega
+
+theorem dieNeed_le : ∀ (ctx : List DLevel) (T : List TokSpec) (need c : Nat), need ≤ 2 * T.length + c →
+    dieNeed ctx need ≤ 2 * (dieToks ctx T).length + c
+  | [], T, need, c, h => by simpa [dieNeed, dieToks] using h
+  | L :: r, T, need, c, h => by
+    have ih := dieNeed_le r T need c h
+    have h1 := Lemmas.WriterChunks.szElems_toks L.pre
+    simp only [dieNeed, dieToks, List.length_append, List.length_cons]
+    omega
+
+/-- **C12_die_in_frames** — abort-on-error handler, the defect inside save frames nested to ANY depth (`ctx`: per level the
+    well-formed elements in front of the open frame and its code; more than one level: `max_frame_depth ≠ 1`).  `hbody`: the abort
+    of the element loop of the innermost frame (`DieSeg`: the class lemmas `die_<class>`, behind items via `DieSeg.after_items`).
+    rc = the code, one report, its line; the CIF holds, level by level, the elements in front and the open frame (`dieRes`). -/
+theorem C12_die_in_frames {o : Opts} {cs : List Chunk} {preB : List Block} {bc : Str} (ctx : List DLevel) (hne : ctx ≠ [])
+    {T rest : List TokSpec} (H : DieHost o cs preB bc (dieToks ctx T) rest) (hdeep : ctx.length ≤ 1 ∨ o.maxFrameDepth ≠ 1)
+    (fsb : List Container) (lsb : List Loop) (C : Code) (j need : Nat) (follow : List TokSpec → Prop)
+    (hok : DieOk o ctx ([], [])) (hC : C ≠ 0) (hneed : need ≤ 2 * T.length + 8) (hj : j ≤ T.length)
+    (hfol : follow (rest ++ [(.end_, [])]))
+    (hbody : ∀ {path : Path} {put : Container → Cif}, View o path put (dieInner ctx) →
+      DieSeg o path put (dieInner ctx) false T [] [] fsb lsb C j need follow) :
+    DieOutcome o cs C
+      (denote o.dia o.normKey preB ++ [.mk bc (dieRes o ctx ([], []) (fsb, lsb)).1 (dieRes o ctx ([], []) (fsb, lsb)).2])
+      ((blocksToks preB).length + 1 + dieJ ctx j) :=
+  C12_die_segment H _ _ C (dieJ ctx j) (dieNeed ctx need) follow hC (dieNeed_le ctx T need 8 hneed) (dieJ_le ctx T j hj) hfol
+    (fun hv => DieSeg.nest o H.mfd T fsb lsb C j need follow ctx hne hv true [] [] (Or.inl rfl) hdeep hok hbody)
+
 /-! ### non-vacuity -/
 
 namespace C12Die
@@ -268,6 +303,32 @@ theorem C12_die_missing_value_in_frame_instance :
       [.mk (a!"a") [.mk (a!"f") [] []] [{ category := some [], names := [a!"_p"], packets := [[.chr false (a!"1")]] }]] 5 :=
   C12_die_missing_value_in_frame C12.opts2 C12Frames.exCs [] (a!"a") [.plain (.item (a!"_p") (.str (a!"1") .bare))] (a!"f") []
     (a!"_x") _ exHostF (by decide) (by decide) (by decide) rfl (by decide) (by decide) (Or.inr ⟨_, _, _, rfl, rfl⟩)
+
+/-- the text of `C12Frames.exCs6` (`data_a save_f save_g save_h _x save_ save_ save_`, frames nest): aborted at `_x` three frames deep -/
+theorem exHostN : DieHost C12Frames.optsN C12Frames.exCs6 [] (a!"a")
+    (dieToks [⟨[], a!"f"⟩, ⟨[], a!"g"⟩, ⟨[], a!"h"⟩] (itemsToks [] ++ [(.name, a!"_x")]))
+    [(.frameTerm, []), (.frameTerm, []), (.frameTerm, [])] where
+  store := rfl
+  utf := rfl
+  ok := C12Frames.exOk6
+  fit := by decide
+  first := ⟨100, _, rfl, by decide, by decide⟩
+  mfd := by decide
+  wfPreB := rfl
+  wfBc := by decide
+  fresh := by intro b hb; cases hb
+  hToks := by decide
+
+/-- non-vacuity of `C12_die_in_frames`: rc CIF_MISSING_VALUE, one report, the three (empty) frames exist -/
+theorem C12_die_in_frames_instance :
+    DieOutcome C12Frames.optsN C12Frames.exCs6 CIF_MISSING_VALUE
+      [.mk (a!"a") [.mk (a!"f") [.mk (a!"g") [.mk (a!"h") [] []] []] []] []] 5 := by
+  have := C12_die_in_frames (o := C12Frames.optsN) [⟨[], a!"f"⟩, ⟨[], a!"g"⟩, ⟨[], a!"h"⟩] (by decide) exHostN (Or.inr (by decide)) [] []
+    CIF_MISSING_VALUE ((itemsToks ([] : List Item)).length + 1) (szItems [] + ([] : List Item).length + 1) termFollow
+    (by simp only [DieOk]; decide) (by decide) (by decide) (by decide) ⟨_, _, _, rfl, rfl⟩
+    (fun hv => DieSeg.after_items C12Frames.optsN hv false [] [] [] [] rfl (nil_seen _) (fun _ _ _ => ⟨_, _, _, rfl, rfl⟩)
+      (die_missing_value C12Frames.optsN hv false (a!"_x") [] [] (by decide) (by decide)))
+  exact this
 
 end C12Die
 
